@@ -156,6 +156,22 @@ func TestC12(t *testing.T) {
 	})
 	runProp(t, "lang", 120000, 1000000, func(t *rapid.T) {
 		ev := langDoc(t)
+		if rapid.IntRange(0, 999).Draw(t, "deepLang") == 0 {
+			// the nearest xml:lang may be hundreds of levels up
+			ev = nil
+			depth := []int{200, 257, 300, 520}[rapid.IntRange(0, 3).Draw(t, "langDepth")]
+			for i := 0; i < depth; i++ {
+				ev = append(ev, xmodel.Event{K: "S", Local: "a"})
+				if i == 0 {
+					ev = append(ev, xmodel.Event{K: "N", Local: "xml", Value: xmodel.XMLNS}, xmodel.Event{K: "A", Space: xmodel.XMLNS, Local: "lang", Prefix: "xml", Value: "en-GB"})
+				}
+			}
+			ev = append(ev, xmodel.Event{K: "A", Local: "id", Value: "1"}, xmodel.Event{K: "T", Value: "t"})
+			for i := 0; i < depth; i++ {
+				ev = append(ev, xmodel.Event{K: "E"})
+			}
+			st.Class("lang from hundreds of levels below")
+		}
 		p, err := prepareDoc(ev)
 		if err != nil {
 			st.Discard("document-not-mirrored")
@@ -164,7 +180,11 @@ func TestC12(t *testing.T) {
 		q := langTags[rapid.IntRange(0, len(langTags)-1).Draw(t, "query")]
 		expr := xast.Call("lang", xast.Str(q))
 		text := xast.RenderMinimal(expr)
-		for _, n := range p.doc.All {
+		nodes := p.doc.All
+		if len(nodes) > 150 {
+			nodes = append([]*xmodel.Node{nodes[1], nodes[len(nodes)/2]}, nodes[len(nodes)-4:]...) // a few context nodes of a very deep document
+		}
+		for _, n := range nodes {
 			c := &evalCase{Events: ev, Ctx: n.Ref(), Expr: expr, Text: text}
 			_, _, err := evalPrepared(c, p)
 			st.Eval(1)
